@@ -2167,7 +2167,7 @@ class FieldSignature(BaseSignature):
             'null': False,
             'db_index': False,
             'db_column': None,
-            'db_table_comment': global_settings.DEFAULT_TABLESPACE,
+            'db_tablespace': global_settings.DEFAULT_TABLESPACE,
         },
         models.DecimalField: {
             'max_digits': None,
